@@ -98,6 +98,15 @@ func signedFrozen(k *oracle.Key, size, ts int64) *configpb.SignedTreeHead {
 		TreeHeadSignature: oracle.SignDS(k, oracle.STHSignatureInput(uint64(ts), uint64(size), root))}
 }
 
+// insertBackend puts b at a position of the backend list drawn from the tape.
+func insertBackend(w *CfgWorld, m *configpb.LogMultiConfig, b *configpb.LogBackend) {
+	bs := m.Backends.Backend
+	at := w.s.T.Intn(len(bs) + 1)
+	out := append([]*configpb.LogBackend{}, bs[:at]...)
+	out = append(out, b)
+	m.Backends.Backend = append(out, bs[at:]...)
+}
+
 var perturbations = []perturb{
 	{"privkey.absent", "reject", func(w *CfgWorld, m *configpb.LogMultiConfig, i int) {
 		c := m.LogConfigs.Config[i]
@@ -390,10 +399,13 @@ var perturbations = []perturb{
 	}},
 	{"backend.empty-spec", "reject", func(w *CfgWorld, m *configpb.LogMultiConfig, i int) { m.Backends.Backend[0].BackendSpec = "" }},
 	{"backend.duplicate-name", "reject", func(w *CfgWorld, m *configpb.LogMultiConfig, i int) {
-		m.Backends.Backend = append(m.Backends.Backend, &configpb.LogBackend{Name: m.Backends.Backend[0].Name, BackendSpec: "other.example:1"})
+		// a twin of any backend, at any position of the list (next to its original or not)
+		bs := m.Backends.Backend
+		insertBackend(w, m, &configpb.LogBackend{Name: bs[w.s.T.Intn(len(bs))].Name, BackendSpec: "other.example:1"})
 	}},
 	{"backend.duplicate-spec", "reject", func(w *CfgWorld, m *configpb.LogMultiConfig, i int) {
-		m.Backends.Backend = append(m.Backends.Backend, &configpb.LogBackend{Name: "be-dupspec", BackendSpec: m.Backends.Backend[0].BackendSpec})
+		bs := m.Backends.Backend
+		insertBackend(w, m, &configpb.LogBackend{Name: "be-dupspec", BackendSpec: bs[w.s.T.Intn(len(bs))].BackendSpec})
 	}},
 	{"backend.dangling-reference", "reject", func(w *CfgWorld, m *configpb.LogMultiConfig, i int) {
 		m.LogConfigs.Config[i].LogBackendName = "no-such-backend"
@@ -435,7 +447,7 @@ func (w *CfgWorld) Init(s *kernel.Sim) {
 	epoch := time.Now()
 	w.pki = NewPKI(t, epoch, 1, 1)
 	w.rootsFile = WriteRoots(s.TB.TempDir(), "roots.pem", w.pki.Roots)
-	nBE := t.Range(1, 2)
+	nBE := t.Pick([]int{3, 3, 1, 1}) + 1 // 1-4 backends
 	m := &configpb.LogMultiConfig{Backends: &configpb.LogBackendSet{}, LogConfigs: &configpb.LogConfigSet{}}
 	for b := 0; b < nBE; b++ {
 		m.Backends.Backend = append(m.Backends.Backend, &configpb.LogBackend{Name: fmt.Sprintf("be%d", b), BackendSpec: fmt.Sprintf("trillian%d.example:8090", b)})
